@@ -10,7 +10,7 @@ TECH_AB = TECH_A + "; traces recorded from the real code validated against a TLA
 CLAIMS = {
  "C01": dict(
     text="LiquidSyntax models the parser protocol as a pushdown machine over the element stream of the lax grammar (open blocks with their modes, raw and comment scanning, else/elsif/when contexts, EOI inside a block = unclosed) ending in accept / reject / unspecified; TLC enumerates every element sequence up to the bound, checks that the machine is never stuck (no expect can fire) and that accept implies every block closed, and every sequence is parsed by the real parser under three configurations and compared with the verdict (a panic, abort or hang is a disagreement of the record in flight; rejections must carry a message). Random longer token soups, lexical sequences inside host tags, nesting towers to depth 32 and character-level mutations of valid templates are parsed and their Call/Return trace validated with TLC (Trace_Calls): a call without a Return, or a rejection without a message, has no explanation. LiquidLex transcribes the inner grammar (grammar.pest) as the PEG it is and LiquidArgs every stdlib tag's argument consumer; TLC enumerates every concatenation of lexical pieces inside 15 host tags, derives accept / reject (and, without filters, the program LiquidInterp runs and its output) and the harness parses and renders the same text.",
-    note="bounded: element sequences <= 4 structural / <= 2 full alphabet (quick), <= 5 / <= 3 (thorough); argument texts of <= 2 pieces (generic 44-piece alphabet) and <= 2 / 4 pieces of the host's own vocabulary; four repaired defects (EOI inside nested block in a comment, 20-digit integer literal, error-path re-parse).",
+    note="bounded: element sequences <= 4 structural / <= 2 full alphabet (quick), <= 5 / <= 3 (thorough); argument texts of <= 2 pieces (generic 44-piece alphabet) and <= 2 / 3 pieces of the host's own vocabulary; four repaired defects (EOI inside nested block in a comment, 20-digit integer literal, error-path re-parse).",
     tech=TECH_AB, ref="DESIGN.md 7 C01"),
  "C02": dict(
     text="LiquidFilterSig is the signature table of every registered filter; TLC spans the space filter x input x argument tuple over a type-confused value pool and states the outcome class (arity outside the signature: rejected; inside: returns a value or an error); every case is executed on the real filters through a template in a build with overflow checks, requiring a return, valid UTF-8 and the stated class; a corpus of tags and blocks with edge arguments is rendered the same way. The LiquidInterp machine of C04 - C10 has no third outcome besides Ok and Err, and every program of those corpora is rendered as well; the functional filter specifications of C13 - C17 decide values where they exist.",
@@ -33,7 +33,7 @@ CLAIMS = {
     note="bounded: 32-value pool, chains <= 4 arms, case <= 3 arms, and/or chains <= 4 atoms; multi-key object ordering excluded (unspecified iteration order).",
     tech=TECH_A, ref="DESIGN.md 7 C06"),
  "C07": dict(
-    text="TLC enumerates every variable path up to the length bound over a nested datum and every array index around both ends, evaluates each on the LiquidInterp machine (model/find.rs semantics in LiquidValues) and checks zero-based/negative index meaning, first/last/size meaning and error-on-missing-step against declarative formulas; literal denotation is specified by canonical-decimal operators with an explicit digit-wise 64-bit range test; the harness renders every path and literal on the real parser and compares output or error. From characters: LiquidLex lexes every concatenation of up to 2 (3) generic pieces and 3 (4) value pieces inside {{ }} and assign, LiquidInterp evaluates the resulting expression, the real crates must print the same.",
+    text="TLC enumerates every variable path up to the length bound over a nested datum and every array index around both ends, evaluates each on the LiquidInterp machine (model/find.rs semantics in LiquidValues) and checks zero-based/negative index meaning, first/last/size meaning and error-on-missing-step against declarative formulas; literal denotation is specified by canonical-decimal operators with an explicit digit-wise 64-bit range test; the harness renders every path and literal on the real parser and compares output or error. From characters: LiquidLex lexes every concatenation of up to 2 (3) generic pieces and 3 value pieces inside {{ }} and assign, LiquidInterp evaluates the resulting expression, the real crates must print the same.",
     note="bounded: paths <= 3 steps (quick) / 4 (thorough), arrays 0..5, ASCII; multi-key object printing only required to succeed.",
     tech=TECH_A, ref="DESIGN.md 7 C07"),
  "C08": dict(
